@@ -56,4 +56,6 @@ func TestModel(t *testing.T) {
 	sweep(t, `(a|ab)(c|bcd)(d*)`, "abcd", 6)
 	sweep(t, `^[0-9]*$`, "0a", 4)
 	sweep(t, `a*?(a+)b?`, "ab", 6)
+	sweep(t, `(?im)^(M*)(V?I{0,4}|IV|IX)$`, "MIV\nx", 6)
+	sweep(t, `(?m)^a$|b$`, "ab\n", 5)
 }
